@@ -149,10 +149,15 @@ def stepLine30 (d : D30) (line : String) : D30 × String :=
             | some ks => (match o.r with | .err _ => false | _ => decide (ks ≠ replyKeys o.r))
             | none => false)
           let tags := match req with | .kv r => (Model.step d.cfg d.ar now d.s r).tags | _ => []
-          let lastTag := match pickTag tags with | some t => some t | none => d.lastTag
+          -- the one mechanism known to move an expiry past the index stays the explanation of a stale
+          -- index for the rest of the case, whatever else happens afterwards
+          let lastTag := if d.lastTag == some Tag.incFailTrace || tags.contains Tag.incFailTrace then some Tag.incFailTrace
+                         else match pickTag tags with | some t => some t | none => d.lastTag
           let flag :=
             if pre then "\t#F:C30-preepoch-expiry-invisible"
-            else if stale then "\t#F:C30-" ++ (match lastTag with | some t => tagId t | none => "expiry-paths-disagree")
+            else if stale then "\t#F:C30-" ++
+              (if !d.e.good then "expiry-site-deviates"
+               else match lastTag with | some t => tagId t | none => "expiry-paths-disagree")
             else ""
           ({ d with s := o.s, ck := ck, opNo := opNo, lastTag := lastTag }, showResp30 ck verb o.r ++ flag)
 
